@@ -353,5 +353,8 @@ func (w *World) execOpExtra(ctx context.Context, toks []string) error {
 	if ok, err := w.execNetOp(ctx, toks); ok || err != nil {
 		return err
 	}
+	if ok, err := w.execGateOp(ctx, toks); ok || err != nil {
+		return err
+	}
 	return fmt.Errorf("unknown op %s", toks[0])
 }
